@@ -110,6 +110,16 @@ def op_client(cfg):
             c2http_summary(cl.c2http)[:-2])
 
 
+def op_client_options(cfg):
+    """the client set up with every optional override the API offers (explicit Host header, verbs/URIs left to the configuration)"""
+    cl = call(client.HttpBeaconClient)
+    call(I.getattr(cl, "run"), cfg, dry_run=True, beacon_id=4242, pid=1234, computer="PC", user="bob", process="a.exe",
+         internal_ip="10.1.2.3", arch="x64", domain="c2.example.org", host_header="Host: front.example.org", sleeptime=5000, jitter=10,
+         user_agent="curl/8")
+    return (cl.beacon_id, cl.get_uri, cl.submit_uri, cl.get_verb, cl.submit_verb, freeze(cl.user_agent), cl.sleeptime, cl.jitter,
+            freeze(cl.host_header), c2http_summary(cl.c2http)[:-2])
+
+
 def op_get_roundtrip(cfg):
     h = call(c2.C2Http, cfg, aes_key=KEY, hmac_key=HKEY)
     req = call(I.getattr(h.transform_get, "transform"), c2.C2Data(metadata=b"\x01\x02\x03meta"))
@@ -140,11 +150,14 @@ OPS = {
     "profile": op_profile, "client dry run": op_client, "get transform/recover": op_get_roundtrip, "post transform/recover": op_post_roundtrip,
     "response transform/recover": op_response_roundtrip,
 }
+# (not part of the all-pairs enumeration: used on the host-header family 5 only)
+EXTRA_OPS = {"client dry run with overrides": op_client_options}
+ALLOPS = dict(OPS, **EXTRA_OPS)
 
 
 def make_block(ctx, family):
     arg = sym_bytes("prepend_arg", 2)
-    ua = sym_bytes("ua_tail", 2) if family != 4 else SymBytes(list(b"ok"))
+    ua = sym_bytes("ua_tail", 2) if family not in (4, 5) else SymBytes(list(b"ok"))
     for c in ua.cells:
         if isinstance(c, int):
             if not 0x20 <= c <= 0x7E:
@@ -153,7 +166,11 @@ def make_block(ctx, family):
             ctx.assume(mkbool(z3.And(z3.UGE(c, 0x20), z3.ULE(c, 0x7E))))
     get = [("_HEADER", b"Accept: */*"), ("BUILD", "metadata"), ("BASE64", True), ("PREPEND", arg), ("HEADER", b"Cookie")]
     post = [("_HEADER", b"Content-Type: application/octet-stream"), ("BUILD", "id"), ("PARAMETER", b"id"), ("BUILD", "output"), ("PRINT", True)]
-    recover = {0: [("print", True), ("base64", True), ("prepend", 3)],
+    if family == 5:
+        # static Host headers in both client programs (a domain-fronting profile)
+        get.insert(1, ("_HOSTHEADER", b"Host: cdn.example.net"))
+        post.insert(0, ("_HOSTHEADER", b"Host: cdn.example.net"))
+    recover = {5: [("print", True), ("mask", True)], 0: [("print", True), ("base64", True), ("prepend", 3)],
                1: [("print", True), ("append", 0), ("mask", True)],
                2: [("print", True)], 3: [("print", True)], 4: [("print", True)]}[family]
     # BeaconGate vector: Core and Cleanup complete, Comms off -> the pretty value is the (not alphabetically ordered) list ['Core', 'Cleanup']
@@ -180,17 +197,17 @@ def h_history(names, family):
         # decoders / transforms — then differs from its reference)
         refs = [None] * len(names)
         for k in reversed(range(len(names))):  # (last operation first: its reference is taken in a state no earlier operation has touched)
-            refs[k] = OPS[names[k]](call(BeaconConfig, block))
+            refs[k] = ALLOPS[names[k]](call(BeaconConfig, block))
         cfg = call(BeaconConfig, block)
         s0 = snapshot(cfg)
         for k, name in enumerate(names):
-            res = OPS[name](cfg)
+            res = ALLOPS[name](cfg)
             s1 = snapshot(cfg)
             ctx.prove(deep_eq(s0, s1), "configuration unchanged after %s (history %s)" % (name, " ; ".join(names[:k + 1])))
             ctx.prove(deep_eq(res, refs[k]), "%s gives the same result as on a fresh configuration (history %s)" % (name, " ; ".join(names[:k + 1])))
             if THOROUGH:
                 fresh = call(BeaconConfig, block)
-                ref = OPS[name](fresh)
+                ref = ALLOPS[name](fresh)
                 ctx.prove(deep_eq(ref, refs[k]), "%s on a fresh configuration gives the same result before and after the history (%s)" % (name, " ; ".join(names[:k + 1])))
     return body
 
@@ -245,6 +262,11 @@ def instances(tier):
         for t in itertools.product(heavy, repeat=3):
             # (family 4: concrete User-Agent — the forks of three path-heavy operations would multiply to ~10^5 paths otherwise)
             out.append(Instance("triple %s" % " ; ".join(t), h_history(t, 4), dict(kind="history", ops=list(t), family=4)))
+    # host-header family: static Host headers in the programs, a client run with explicit overrides before/after the observers
+    x = "client dry run with overrides"
+    for o in ("settings", "C2Http(aes+hmac)", "get transform/recover", "post transform/recover", "client dry run", x) + (() if q else ("profile",)):
+        for hist in ((x, o), (o, x)) if o != x else ((x, x),):
+            out.append(Instance("pair %s ; %s host-header block" % hist, h_history(hist, 5), dict(kind="history", ops=list(hist), family=5)))
     out.append(Instance("mappings reject mutation", h_mutation(), dict(kind="mutation")))
     for i in out:
         i.native_patches = [(c2, "random", models_lib.RandomShim)]
